@@ -191,6 +191,30 @@ type world struct {
 	tornDown  bool
 	params    map[string]int
 	extra     map[string]any
+	wm        *wireMon
+	knownHits map[string]int
+}
+
+// knownClasses: violation classes recorded in known_findings.json as open
+// findings (passed with -vsim.known); they are counted, not reported, so that
+// one recorded defect does not mask the rest of a run.
+var knownClasses = map[string]bool{}
+
+func (w *world) onReadCall(c *simConn) {
+	if w.wm != nil && c.side < 2 {
+		w.wm.onReadCall(c.side)
+	}
+}
+
+// installMonitor attaches the wire monitor with every oracle family enabled.
+func (w *world) installMonitor(x *xfer) *wireMon {
+	m := newWireMon(w, x)
+	for _, p := range []string{"C05", "C05.complete", "C10", "C11", "C12", "C13", "C06", "C07", "C15", "C17", "C19"} {
+		m.props[p] = true
+	}
+	w.wm = m
+	w.mons = append(w.mons, m)
+	return m
 }
 
 func (w *world) now() time.Duration { return time.Since(w.t0) }
@@ -198,6 +222,17 @@ func (w *world) now() time.Duration { return time.Since(w.t0) }
 func (w *world) nextSeq() int64 { w.evSeq++; return w.evSeq }
 
 func (w *world) violate(prop, class, f string, a ...any) {
+	if knownClasses[prop+":"+class] {
+		// a recorded known finding: count it and keep checking everything else
+		if w.knownHits == nil {
+			w.knownHits = map[string]int{}
+		}
+		w.knownHits[prop+":"+class]++
+		if w.verbose != nil && w.knownHits[prop+":"+class] == 1 {
+			w.verbose("KNOWN " + prop + " " + class + ": " + fmt.Sprintf(f, a...))
+		}
+		return
+	}
 	if w.viol == nil {
 		w.viol = &violation{Prop: prop, Class: class, Msg: fmt.Sprintf(f, a...)}
 		if w.verbose != nil {
@@ -640,6 +675,7 @@ type msgRec struct {
 	relType    byte
 	relVal     uint32
 	dcep       bool
+	tail       bool
 	invokeSeq  int64
 	returnSeq  int64
 	invokeAt   time.Duration
@@ -810,6 +846,7 @@ type runResult struct {
 	Tapes     map[string][]uint32 `json:"tapes,omitempty"`
 	Trace     []string          `json:"trace,omitempty"`
 	NAPI      int               `json:"napi"`
+	Known     map[string]int    `json:"known,omitempty"`
 	Extra     map[string]any    `json:"extra,omitempty"`
 }
 
@@ -909,6 +946,15 @@ func runOne(t *testing.T, sc scenario, o runOpts) (res *runResult) {
 		res.Notes = w.notes
 		res.Config = w.cfg
 		res.NAPI = w.nAPI
+		res.Known = w.knownHits
+		if w.wm != nil {
+			if w.extra == nil {
+				w.extra = map[string]any{}
+			}
+			for k, v := range w.wm.counters {
+				w.extra[k] = v
+			}
+		}
 		res.Extra = w.extra
 		res.Sig, res.Nontrivial = w.signature()
 	}
